@@ -85,6 +85,8 @@ class Proj:
         self.res = []
         self.tasks = []
         self.shifts = {}              # name -> hours dict
+        self.shift_leaves = {}        # name -> [(startDt, endDt|None)]: leaves declared inside the shift
+        self.default_hours = None     # hours dict written in the project header: the default of everybody without hours of their own
         self.scenarios = scenarios    # None or nested list [("plan",[("delayed",[])])]
         self.extra = ""              # extra text appended (reports ...)
 
@@ -103,8 +105,10 @@ class Proj:
         self.tasks.append(t)
         return t
 
-    def add_shift(self, name, hours):
+    def add_shift(self, name, hours, leaves=()):
         self.shifts[name] = hours
+        if leaves:
+            self.shift_leaves[name] = list(leaves)
         return name
 
     # -- names --------------------------------------------------------------------------
@@ -167,6 +171,8 @@ class Proj:
             L.append("  timingresolution %s" % fmt_dur(self.G))
         if self.alap:
             L.append("  scheduling alap")
+        if self.default_hours is not None:
+            L.extend(self.hours_lines(self.default_hours, "  "))
 
         def scen(lst, ind):
             for sid, kids in lst:
@@ -186,6 +192,8 @@ class Proj:
         for name, hours in self.shifts.items():
             L.append('shift %s "%s" {' % (name, name))
             L.extend(self.hours_lines(hours, "  "))
+            for a, b in self.shift_leaves.get(name, []):
+                L.append("  leaves annual %s%s" % (fmt_date(a), " - " + fmt_date(b) if b else ""))
             L.append("}")
 
         def rres(r, ind):
@@ -346,9 +354,13 @@ class Proj:
             # own hours / shift, else those of the nearest enclosing group that declares some, else the project default
             x = r
             hours = None
+            via_shift = None
             while x is not None and hours is None:
                 hours = self.shifts[x.shift] if x.shift else x.hours
+                via_shift = x.shift if x.shift else None
                 x = x.parent
+            if hours is None and self.default_hours is not None:
+                hours = self.default_hours        # reference semantics: hours written in the project header are the project default
             if hours is not None:
                 H = [[[a, b] for a, b in hours.get(d, [])] for d in range(7)]
                 cal = "hours"
@@ -356,11 +368,19 @@ class Proj:
                 H = [[] for _ in range(7)]
                 cal = "default"
             lv = []
-            for a, b in r.leaves + r.vacations:
-                # reference semantics: a leave written as one date covers that day; a range a - b covers [a, b)
+            # reference semantics: leaves, vacations and blocking bookings of every enclosing group apply to the people below it
+            # (TaskJuggler list attributes are inherited and extended, not replaced, by a declaration of one's own)
+            x = r
+            while x is not None:
+                for a, b in x.leaves + x.vacations:
+                    # a leave written as one date covers that day; a range a - b covers [a, b)
+                    lv.append([self.secs(a), self.secs(b) if b else self.secs(a) + 86400])
+                for a, sec in x.bookings:
+                    lv.append([self.secs(a), self.secs(a) + sec])
+                x = x.parent
+            # ... and so do the leaves declared inside the shift the resource takes its working time from
+            for a, b in self.shift_leaves.get(via_shift, []) if via_shift else []:
                 lv.append([self.secs(a), self.secs(b) if b else self.secs(a) + 86400])
-            for a, sec in r.bookings:
-                lv.append([self.secs(a), self.secs(a) + sec])
             R.append({"name": self.full(r), "parent": rix[id(r.parent)] if r.parent else 0, "leaf": not r.kids,
                       "effN": r.eff.numerator, "effD": r.eff.denominator, "cal": cal, "hours": H, "leaves": lv,
                       "tzname": r.tz or "",
@@ -530,6 +550,9 @@ def calendars(rng, n, zones=None):
             rng.shuffle(pair)
             (vac if rng.random() < 0.7 else gl).extend(pair)
         p = Proj(start=start, G=G, length="+3w", alap=alap, vac=vac, gleaves=gl)
+        if rng.random() < 0.25:
+            # the project header declares the default working hours (for everybody without hours / shift of their own)
+            p.default_hours = rng.choice([std_hours(480, 720, range(4)), std_hours(600, 1140), {d: [(420, 660), (720, 900)] for d in range(6)}])
         rs = []
         for k in range(rng.randint(1, 3)):
             style = rng.choice(["default", "day", "two", "night", "subset", "shift"])
@@ -548,8 +571,12 @@ def calendars(rng, n, zones=None):
             elif style == "subset":
                 hours = {d: [(540, 1020)] for d in rng.sample(range(7), 3)}
             elif style == "shift":
+                sl = []
+                if rng.random() < 0.4:      # the shift itself is off for a day or a few: nobody who works it is there
+                    s0 = start.replace(hour=0, minute=0) + timedelta(days=rng.randint(0, 6))
+                    sl.append((s0, s0 + timedelta(days=rng.randint(1, 3)) if rng.random() < 0.6 else None))
                 shift = p.add_shift("s%d" % k, rng.choice([std_hours(540, 1080), {d: [(1320, 360)] for d in range(5)},
-                                                           {d: [(0, 480), (960, 1440)] for d in range(7)}]))
+                                                           {d: [(0, 480), (960, 1440)] for d in range(7)}]), leaves=sl)
             tz = rng.choice(zones) if (hours is not None or shift) and rng.random() < 0.6 else None
             parent = None
             if rng.random() < 0.25:
@@ -561,6 +588,13 @@ def calendars(rng, n, zones=None):
                     parent = p.add_res("g%d" % k, hours=gh)
                 if style == "default" or rng.random() < 0.3:
                     hours, shift = None, None           # inherits the group's hours
+                if rng.random() < 0.6:
+                    # the whole group is away: that applies to everybody below it, with or without leaves of their own
+                    g0 = start.replace(hour=0, minute=0) + timedelta(days=rng.randint(0, 6))
+                    if rng.random() < 0.5:
+                        parent.leaves.append((g0, g0 + timedelta(days=rng.randint(1, 3)) if rng.random() < 0.6 else None))
+                    else:
+                        parent.vacations.append((g0, g0 + timedelta(days=rng.randint(1, 2)) if rng.random() < 0.6 else None))
             leaves = []
             bookings = []
             if rng.random() < 0.35:
@@ -1193,6 +1227,7 @@ def shifted(p, weeks):
     q.start = sh(q.start)
     q.vac = [(sh(a), sh(b)) for a, b in q.vac]
     q.gleaves = [(sh(a), sh(b)) for a, b in q.gleaves]
+    q.shift_leaves = {n: [(sh(a), sh(b)) for a, b in lv] for n, lv in q.shift_leaves.items()}
     for r in q.res:
         r.leaves = [(sh(a), sh(b)) for a, b in r.leaves]
         r.vacations = [(sh(a), sh(b)) for a, b in r.vacations]
@@ -1241,6 +1276,7 @@ def renamed(p, rng, reuse_across_parents=False):
             glob.add(n)
             newshifts[r.shift] = n
     q.shifts = {newshifts.get(k, k): v for k, v in q.shifts.items()}
+    q.shift_leaves = {newshifts.get(k, k): v for k, v in q.shift_leaves.items()}
     for r in q.res:
         if r.shift:
             r.shift = newshifts[r.shift]
@@ -1293,8 +1329,11 @@ def swap_shift_inline(p):
     q = clone(p)
     k = 0
     for r in q.res:
+        if r.shift and r.kids and q.shift_leaves.get(r.shift):
+            continue        # a group's shift with leaves: the leaves follow the shift (only to those who work it), not the group
         if r.shift:
             r.hours = q.shifts[r.shift]
+            r.leaves = r.leaves + list(q.shift_leaves.get(r.shift, []))      # the shift's leaves come along
             r.shift = None
         elif r.hours is not None and r.hours:
             name = "sh_%d" % k
@@ -1303,6 +1342,7 @@ def swap_shift_inline(p):
             r.shift = name
             r.hours = None
     q.shifts = {n: h for n, h in q.shifts.items() if any(r.shift == n for r in q.res)}
+    q.shift_leaves = {n: v for n, v in q.shift_leaves.items() if n in q.shifts}
     return q
 
 
@@ -1661,11 +1701,20 @@ def container_gate(rng, n):
             inner = p.add_task("stage", parent=box)
             if rng.random() < 0.4:
                 inner = p.add_task("step", parent=inner)          # the leaves that complete `build` sit two or three levels below it
+        events_only = rng.random() < 0.2
         for k in range(rng.randint(1, 3)):
+            if events_only:
+                # the container holds nothing but dated events (milestones the user pinned): it is complete before any work is placed
+                p.add_task("c%d" % k, parent=inner if (inner and rng.random() < 0.7) else box, milestone=True,
+                           start=datetime(2025, 1, 6) + timedelta(hours=rng.choice([9, 10, 33])))
+                continue
             p.add_task("c%d" % k, parent=inner if (inner and rng.random() < 0.7) else box, effort=G * rng.randint(1, 10),
                        alloc=[rng.choice(rs)], prio=rng.choice([None, 500, 600]))
         if inner is not None and not inner.kids:
-            p.add_task("cx", parent=inner, effort=G * 2, alloc=[rs[0]])
+            if events_only:
+                p.add_task("cx", parent=inner, milestone=True, start=datetime(2025, 1, 6, 9))
+            else:
+                p.add_task("cx", parent=inner, effort=G * 2, alloc=[rs[0]])
         rel = p.add_task("release", effort=G * rng.randint(2, 12), alloc=[rng.choice(rs)], prio=rng.choice([800, 900]),
                          deps=[(box, False, rng.choice([0, 0, G]))])
         if rng.random() < 0.5:
